@@ -54,6 +54,8 @@ def run(prog: Program, col: Collector, tier: str, refs: Optional[Refs] = None, c
     algebra.r_absent_vars_kernel(prog, col, refs, cat, "R01.10")
     algebra.r_op_params_used(prog, col, refs, cat, "R01.11")
     algebra.r_commutative_default_symmetric(prog, col, refs, cat, "R01.12")
+    algebra.r_reduce_rules_keep_absent_vars(prog, col, refs, cat, "R01.14")
+    algebra.r_size_product_over_sequence(prog, col, refs, cat, "R01.15")
     # eager evaluation of Number operands runs the scalar implementation of an op, of Tensor operands the array one: they must agree
     from . import numerics
     numerics.run_agreement(prog, col, refs, cat, rule="R01.13")
